@@ -61,7 +61,7 @@ def c17(tier, seed):
         out.append(_c('memb-asan', 'memb', 'asan', 1, extra=['--ht-stride=6']))
         out.append(_c('qsbr-asan-rs', 'qsbr', 'asan', 2, groups='rs,lfq'))
         out.append(_c('memb-nomembarrier-rs', 'memb', 'plain', 2, groups='rs', env={'VP_NO_MEMBARRIER': '1'}))
-        out.append(_c('memb-tsan', 'memb', 'tsan', 6, extra=['--stall-ms=90000']))
+        out.append(_c('memb-tsan', 'memb', 'tsan', 6))
         return out
     s = 30
     out.append(_c('memb-plain', 'memb', 'plain', 3 * s, timeout=3600))
@@ -77,6 +77,6 @@ def c17(tier, seed):
     out.append(_c('qsbr-asan', 'qsbr', 'asan', 12, extra=['--ht-stride=4'], timeout=5400))
     out.append(_c('mb-asan-rs', 'mb', 'asan', 2 * s, groups='rs,lfq', timeout=3600))
     out.append(_c('memb-nomembarrier-rs', 'memb', 'plain', 4 * s, groups='rs', env={'VP_NO_MEMBARRIER': '1'}, timeout=3600))
-    out.append(_c('memb-tsan', 'memb', 'tsan', 6 * s, extra=['--stall-ms=90000'], timeout=3600))
-    out.append(_c('qsbr-tsan', 'qsbr', 'tsan', 3 * s, extra=['--stall-ms=90000'], timeout=3600))
+    out.append(_c('memb-tsan', 'memb', 'tsan', 6 * s, timeout=3600))
+    out.append(_c('qsbr-tsan', 'qsbr', 'tsan', 3 * s, timeout=3600))
     return out
